@@ -160,3 +160,12 @@ UNITS.append(Native(
           "constructors with 0, 2, 3 arguments) through the JSON Schema and the XSD target: the 36 schemas that are "
           "generated must be well-formed and valid for jsonschema (Draft 2019-09 meta-schema, every pattern compiles) "
           "resp. xmlschema (XSD 1.0)", args={}, timeout_s=900))
+
+UNITS.append(Native(
+    "generated schemas against SDK documents, second (recursive) model", ["C11", "C12", "C13", "C14"], "native.c11y:bounded",
+    kind="examples",
+    bound="the meta-model of native/c09.py (a container with a list of itself, optional enumeration / integer / string "
+          "properties, a class of integers and booleans): 23 instances written by the generated Python SDK; those without "
+          "a verification error must validate against both generated schemas (8), those whose only violations are length "
+          "/ pattern / list-size constraints must be rejected by both (8); the rest is not judged (the schemas cannot "
+          "express arithmetic invariants)", args={}, timeout_s=600))
